@@ -3,11 +3,12 @@
    string / ascii / nat stay the extracted inductive types.  No Extract Constant. *)
 Require Extraction.
 Require Import ExtrOcamlBasic.
-From PVBld Require Import Names Paths BoxCycle Pipeline Derive.
+From PVBld Require Import Names Paths BoxCycle Pipeline Derive Dedup Collect Effective.
 
 Extraction "model.ml"
   display ident_token_ok rust_name emitted collides
   related_path wrelated_path resolve_item
   box_decisions is_nested union_cycle_b
   layout layout_pred generate_unique_name lower_message lower_message_pinned
-  decisions verdict closed_b ws_complete_b.
+  decisions verdict closed_b ws_complete_b
+  layout_pred_dedup collect_items helper_items exception_path duplicates.
